@@ -1886,7 +1886,7 @@ def ob_pragmatic_matrix(ctx, n, m, n_tt=None):
         if out is None:
             if not no_panic(ctx, res, env, st, what=name):
                 if res.status == 'violated':
-                    res.case = case_of(None)
+                    res.case = case_of(getattr(res, 'model', None))
                 break
             continue
         if out.variant() is None:
